@@ -1,5 +1,7 @@
-from checks import vmprops
+from checks import vmprops, frontprops
 CHECKS = {
     'C05': vmprops.check_vm_property, 'C06': vmprops.check_vm_property, 'C17': vmprops.check_vm_property,
     'C19': vmprops.check_vm_property, 'C20': vmprops.check_vm_property,
+    'C14': frontprops.check_C14, 'C15': frontprops.check_C15, 'C08': frontprops.check_C08,
+    'C10': frontprops.check_C10, 'C11': frontprops.check_C11,
 }
